@@ -32,8 +32,9 @@ POST = [
 ]
 
 
-def layout(name, qual, before):
+def layout(name, qual, before, idx_role):
     return dict(
+        bind_locals={"idx": idx_role},      # `idx` is a role: the running position counter initialised right before the loop
         name=name, prop="C01", target=f"{F}::{qual}",
         region=dict(kind="for", match="in self.var_updates['DEs'].items()", nth=0, before=before),
         params={"self": "obj:ComputeGraph", "ghost_K": "int"},
@@ -44,6 +45,6 @@ def layout(name, qual, before):
 
 
 CONTRACTS = [
-    layout("ComputeGraph.to_func@state-layout", "ComputeGraph.to_func", 2),
-    layout("ComputeGraph.get_jacobian_func@state-layout", "ComputeGraph.get_jacobian_func", 1),
+    layout("ComputeGraph.to_func@state-layout", "ComputeGraph.to_func", 2, (1, 0)),
+    layout("ComputeGraph.get_jacobian_func@state-layout", "ComputeGraph.get_jacobian_func", 1, (0, 1)),
 ]
